@@ -143,6 +143,7 @@ func scenarioN(cs []config) e1.Scenario {
 		if len(cs) > 0 && cs[0].fd0 {
 			vs.Net().FdBase = 0
 		}
+		usedArgs = nil
 		opIx = vs.Choose(len(spec.Ops), "operation")
 		op := &spec.Ops[opIx]
 		m := []int{0}
@@ -151,7 +152,29 @@ func scenarioN(cs []config) e1.Scenario {
 			if op.Broadcast {
 				u.GetDevices()
 			} else {
-				ops.Invoke(u, op.Name, target, ops.Baseline(op))
+				args := ops.Baseline(op)
+				if usedArgs != nil {
+					args = usedArgs
+				}
+				// arguments that happen to equal something the client is configured with (the controller's own
+				// address, the bind address, the broadcast address): where a request goes depends on the
+				// configuration of the addressed controller alone, not on what the request carries
+				if usedArgs == nil && (op.Name == "SetAddress" || op.Name == "SetListener") {
+					related := []string{c.ctrl, c.bind, c.broadcast, "192.168.1.2:60001"}
+					if k := vs.Choose(len(related)+1, "argument-equals-configured-value"); k > 0 {
+						if ap, err := netip.ParseAddrPort(related[k-1]); err == nil && ap.Addr().Is4() {
+							if op.Name == "SetAddress" {
+								args["Address"] = ap.Addr().As4()
+							} else if ap.Port() != 0 && ap.Port() != 60000 {
+								args["AddrPort"] = spec.AP{IP: ap.Addr().As4(), Port: ap.Port()}
+							} else {
+								args["AddrPort"] = spec.AP{IP: ap.Addr().As4(), Port: 60001}
+							}
+						}
+					}
+				}
+				usedArgs = args
+				ops.Invoke(u, op.Name, target, args)
 			}
 			m = append(m, len(vs.Net().Packets))
 		}
@@ -328,7 +351,13 @@ func judge(c config, op *spec.Op, answered bool, packets []vs.Packet, prefix str
 	}
 }
 
+// usedArgs: the arguments the operation of this execution was called with (set by the scenario body)
+var usedArgs spec.Args
+
 func wire(op *spec.Op) spec.Args {
+	if usedArgs != nil {
+		return usedArgs
+	}
 	return ops.Baseline(op)
 }
 
